@@ -153,6 +153,16 @@ class Func:
                 t = self.x(self.skip(tgt))
                 if t and t['k'] == 'ref':
                     cnt[t['decl']] = cnt.get(t['decl'], 0) + 1
+            if k in ('call', 'construct') and e.get('sig') and e.get('args'):
+                # a variable handed to a non-const lvalue-reference parameter may be rewritten by the callee
+                pts = split_sig(e['sig'])
+                for a, pt in zip(e['args'], pts):
+                    pt = pt.strip()
+                    if pt.endswith('&') and not pt.endswith('&&') and not pt[:-1].rstrip().endswith('const') and not pt.startswith('const ') or \
+                       (pt.endswith('*&') and not pt[:-1].rstrip().endswith('const')):
+                        t = self.x(self.skip(a))
+                        if t and t['k'] == 'ref':
+                            cnt[t['decl']] = cnt.get(t['decl'], 0) + 1
         self._assign_count = cnt
         return cnt
 
@@ -197,7 +207,8 @@ class Func:
         if k == 'this' or (k == 'unop' and e['op'] == '&'):
             return True
         if k == 'ref':
-            return self.decls[e['decl']]['kind'] in ('param', 'local')
+            # a copy of another pointer variable names the same object only while that variable is never re-assigned
+            return self.decls[e['decl']]['kind'] in ('param', 'local') and self.assign_counts().get(e['decl'], 0) == 0
         if k == 'call' and is_conversion(e) and 'recv' in e:
             r = self.x(self.skip(e['recv']))
             return r is not None and r['k'] == 'ref'
@@ -441,6 +452,35 @@ class Func:
         for c in self.children(i):
             self.subtree(c, seen)
         return seen
+
+
+def split_sig(sig):
+    """'(A, B<C, D>, E) const' -> ['A', 'B<C, D>', 'E']"""
+    s = sig.strip()
+    if s.startswith('('):
+        depth = 0
+        for i, c in enumerate(s):
+            if c == '(':
+                depth += 1
+            elif c == ')':
+                depth -= 1
+                if depth == 0:
+                    s = s[1:i]
+                    break
+    out, cur, depth = [], '', 0
+    for c in s:
+        if c in '<([':
+            depth += 1
+        elif c in '>)]':
+            depth -= 1
+        if c == ',' and depth == 0:
+            out.append(cur.strip())
+            cur = ''
+        else:
+            cur += c
+    if cur.strip():
+        out.append(cur.strip())
+    return out
 
 
 def is_conversion(e):
